@@ -75,6 +75,8 @@ inductive Enter where
   | nop
   | setS (k : String) (v : Val)   -- `self.sdata[k] = v`
   | raise
+  | chain (e : String)            -- `self.event(e)`: a chained transition requested by the entry action
+  | goto (s : String)             -- `self.event(Goto(s))`
   deriving DecidableEq, Repr, Inhabited
 
 inductive OutMode where
@@ -186,8 +188,15 @@ def tevOk (c : FsmCls) : TEv → Bool
   | .ev e => c.events.contains e
   | .goto s => c.states.contains s
 
+/-- the event an entry action sends to its own block exists (an unknown one would leave the entry action as an
+    EdzedUnknownEvent that nobody turns into an abort: finding C09-nested-unknown, outside this model) -/
+def enterOk (c : FsmCls) : Enter → Bool
+  | .chain e => c.events.contains e
+  | _ => true
+
 def valid (c : FsmCls) : Bool :=
-  c.timers.all (fun t => c.tevOk t.2.2) && c.trans.all (fun t => c.states.contains t.2.2)
+  c.enters.all (fun en => c.enterOk en.2)
+    && c.timers.all (fun t => c.tevOk t.2.2) && c.trans.all (fun t => c.states.contains t.2.2)
     && c.states.contains c.initState
 
 end FsmCls
@@ -232,11 +241,60 @@ def finishEnter (c : FsmCls) (st : String) (d : Dyn) : Dyn × Res :=
   | some o => ({ d with out := o, inited := true }, .ret (.bool true))
   | none => (d, .handlerError)
 
-/-- enter `st` (exit part: the timer is stopped): `_state`, `enter_STATE`, timer, output -/
+/-- what a nested `self.event(…)` made by an entry action does while the outer transition is still in progress
+    (`_fsm_event_active`) -/
+inductive Nested where
+  | parked (st : String)      -- accepted: the request is parked in `_next_event`, the call returns True
+  | rejected                  -- no transition from the state just entered / condition not satisfied: returns False
+  | failed                    -- an exception inside the nested handler: abort, it propagates through the entry action
+  deriving DecidableEq, Repr, Inhabited
+
+/-- the nested call of the entry script `en`, made in the state just entered (`d.fstate`); `none`: the script makes
+    no call.  The conditions are skipped while the block is not initialised (the initial transition). -/
+def nestedEvent (c : FsmCls) (d : Dyn) : Enter → Option Nested
+  | .chain e =>
+    if !c.events.contains e then some .failed else      -- (excluded by `FsmCls.valid`)
+    match c.next e d.fstate with
+    | none => some .rejected
+    | some st =>
+      if !d.inited then some (.parked st) else
+      match c.condOf e with
+      | .yes => some (.parked st)
+      | .no => some .rejected
+      | .raise => some .failed
+      | .stateNe s => if d.fstate == s then some .rejected else some (.parked st)
+      | .putInput => some .failed                       -- (a chained event carries no `value`: KeyError)
+  | .goto s => if c.states.contains s then some (.parked s) else some .failed
+  | _ => none
+
+/-- `_ct_chainlimit` -/
+def FsmCls.chainLimit (c : FsmCls) : Nat := 3 * c.states.length
+
+/-- the loop of `_ctx_event` entering `st` and following the chained transitions requested by the entry actions:
+    `_state`, `enter_STATE` (with its nested `event()`), then either the next parked request or timer + output.
+    `fuel` = remaining iterations of the `for … in range(_ct_chainlimit)` loop.  The third component lists the
+    block's state at the return of every nested `AddonPersistence.event` call that returned normally. -/
+def fsmChain (c : FsmCls) (now : Time) : Nat → Dyn → String → Dyn × Res × List Dyn
+  | 0, d, _ => (d, .handlerError, [])       -- "Chained state transition limit reached"
+  | fuel + 1, d, st =>
+    let d1 : Dyn := { d with fstate := st, timer := none, entered := d.entered ++ [st] }
+    if c.enterOf st = .raise then (d1, .handlerError, []) else
+    let d2 := enterEffect (c.enterOf st) d1
+    match nestedEvent c d2 (c.enterOf st) with
+    | some (.parked st') =>
+      let r := fsmChain c now fuel d2 st'
+      (r.1, r.2.1, d2 :: r.2.2)
+    | some .failed => (d2, .handlerError, [])
+    | some .rejected => ((finishEnter c st (armTimer c now st d2)).1, (finishEnter c st (armTimer c now st d2)).2, [d2])
+    | none => ((finishEnter c st (armTimer c now st d2)).1, (finishEnter c st (armTimer c now st d2)).2, [])
+
+/-- enter `st` (exit part: the timer is stopped): `_state`, `enter_STATE`, chained transitions, timer, output -/
 def fsmEnter (c : FsmCls) (now : Time) (d : Dyn) (st : String) : Dyn × Res :=
-  let d1 : Dyn := { d with fstate := st, timer := none, entered := d.entered ++ [st] }
-  if c.enterOf st = .raise then (d1, .handlerError)
-  else finishEnter c st (armTimer c now st (enterEffect (c.enterOf st) d1))
+  ((fsmChain c now c.chainLimit d st).1, (fsmChain c now c.chainLimit d st).2.1)
+
+/-- the block's state at the return of every nested `event()` call made during `fsmEnter` -/
+def fsmEnterMids (c : FsmCls) (now : Time) (d : Dyn) (st : String) : List Dyn :=
+  (fsmChain c now c.chainLimit d st).2.2
 
 /-- `FSM._event` for a named event -/
 def fsmNamed (c : FsmCls) (now : Time) (d : Dyn) (e : String) (v : Option Val) : Dyn × Res :=
@@ -319,6 +377,36 @@ def fsmEvent (c : FsmCls) (now : Time) (d : Dyn) (ev : Ev) : Dyn × Res :=
   | ev => match ev.fsmName with
     | some (e, v) => fsmNamed c now d e v
     | none => (d, .unknown)
+
+/-- the block's state at the return of every nested `event()` call made while `fsmNamed` runs -/
+def fsmNamedMids (c : FsmCls) (now : Time) (d : Dyn) (e : String) (v : Option Val) : List Dyn :=
+  if !c.events.contains e then [] else
+  match c.next e d.fstate with
+  | none => []
+  | some st =>
+    match c.condOf e with
+    | .no => []
+    | .raise => []
+    | .stateNe s => if d.fstate == s then [] else fsmEnterMids c now d st
+    | .putInput =>
+      match v with
+      | none => []
+      | some x => fsmEnterMids c now { d with sdata := d.sdata.set "input" x } st
+    | .yes => fsmEnterMids c now d st
+
+def fsmEventMids (c : FsmCls) (now : Time) (d : Dyn) (ev : Ev) : List Dyn :=
+  match ev with
+  | .goto s => if c.states.contains s then fsmEnterMids c now d s else []
+  | ev => match ev.fsmName with
+    | some (e, v) => fsmNamedMids c now d e v
+    | none => []
+
+/-- the nested `event()` calls a block makes on itself while it handles `ev` (only the entry actions of an FSM do
+    that): the block's state at the moment each of them returned, in order -/
+def blockMids (k : Kind) (now : Time) (d : Dyn) (ev : Ev) : List Dyn :=
+  match k with
+  | .fsm c => fsmEventMids c now d ev
+  | _ => []
 
 /-- `SBlock.event` (without the persistence wrapper) on an initialised block -/
 def blockEvent (k : Kind) (cal : Val → Option Bool) (now : Time) (d : Dyn) (ev : Ev) : Dyn × Res :=
@@ -629,6 +717,64 @@ def Circ.fire (c : Circ) (cal : Val → Option Bool) (i : Nat) : Option (Circ ×
     | some (t, tev) =>
       if t < c.now then none else
       Circ.event { c with now := t, blocks := c.blocks.set i { b with dyn := { b.dyn with timer := none } } }
+        cal i (tevEv tev)
+
+/-! ### the event wrapper with its nested calls
+
+`AddonPersistence.event` is the outermost `event()` of every persistent-capable block, so a block that sends an
+event to itself while it handles one (an FSM entry action requesting a chained transition) re-enters the wrapper.
+Mirrors the code WITH the repair `patches/C06-nested-event-saves-intermediate-state.diff`: only the outermost call
+saves (the unrepaired code saved at the return of the nested call, i.e. the intermediate state of the transition in
+progress). -/
+
+/-- the sync save at the end of one `AddonPersistence.event` call of an initialised block; `nested`: another
+    `event()` of the same block was active when the call was made.  The flag says whether the storage was written. -/
+def wrapperSave (nested : Bool) (s : Storage) (b : Blk) : Storage × Bool :=
+  if !nested && b.persistent && b.sync then (saveBlk s b, true) else (s, false)
+
+/-- the same with the `is_initialized()` test (start-up) -/
+def syncSaveN (nested : Bool) (s : Storage) (b : Blk) : Storage := if nested then s else syncSave s b
+
+/-- storage and log of storage snapshots (one after every write) after the nested wrapper calls that returned
+    normally, the block being in the states `mids` at those moments -/
+def nestedSaves (b : Blk) (mids : List Dyn) (s : Storage) (log : List Storage) : Storage × List Storage :=
+  mids.foldl (fun (acc : Storage × List Storage) m =>
+    match wrapperSave true acc.1 { b with dyn := m } with
+    | (s', true) => (s', acc.2 ++ [s'])
+    | (s', false) => (s', acc.2)) (s, log)
+
+/-- `AddonPersistence.event` of block `i` with every wrapper call it contains: the result of `Circ.event` plus the
+    storage as it was after each write made during the event (the crash points inside the event) -/
+def Circ.eventN (c : Circ) (cal : Val → Option Bool) (i : Nat) (ev : Ev) : Option (Circ × Res × List Storage) :=
+  if c.phase != .running && c.phase != .aborted && c.phase != .stopping then none else
+  match c.blocks[i]? with
+  | none => none
+  | some b =>
+    let p := blockEvent b.kind cal c.now b.dyn ev
+    let n := nestedSaves b (blockMids b.kind c.now b.dyn ev) c.store []
+    match p.2 with
+    | .ret _ =>
+      let b' := { b with dyn := p.1 }
+      let w := wrapperSave false n.1 b'
+      some ({ c with blocks := c.blocks.set i b', store := w.1 }, p.2, if w.2 then n.2 ++ [w.1] else n.2)
+    | .handlerError =>
+      some ({ c with blocks := c.blocks.set i { b with dyn := p.1, persistent := false },
+                     phase := if c.phase == .running then .aborted else c.phase, store := n.1 }, p.2, n.2)
+    | _ =>
+      some ({ c with blocks := c.blocks.set i { b with dyn := p.1, persistent := b.persistent && c.ready },
+                     store := n.1 }, p.2, n.2)
+
+/-- a timer firing, with the wrapper calls (see `Circ.fire`) -/
+def Circ.fireN (c : Circ) (cal : Val → Option Bool) (i : Nat) : Option (Circ × Res × List Storage) :=
+  if c.phase != .running && c.phase != .aborted && c.phase != .stopping then none else
+  match c.blocks[i]? with
+  | none => none
+  | some b =>
+    match b.dyn.timer with
+    | none => none
+    | some (t, tev) =>
+      if t < c.now then none else
+      Circ.eventN { c with now := t, blocks := c.blocks.set i { b with dyn := { b.dyn with timer := none } } }
         cal i (tevEv tev)
 
 /-- earliest expiry of an active timer -/
